@@ -81,7 +81,9 @@ def write_case(draw):
     case = {"kind": "write", "integration": integration, "phys": phys, "entry": entry, "how": how,
             "frame_size": draw(st.sampled_from([1, 2, 3, 4, 5, 7, 11, 16, 40])), "statements": stmts, "delimited": True,
             "preset": draw(gen.preset_for(stmts)),
-            "params": {"generalized": integration == "generic", "rdf_star": integration == "generic", "stream_name": ""}}
+            # (the remaining stream parameters vary too: a frame size must survive whatever else the options say)
+            "params": {"generalized": integration == "generic", "rdf_star": integration == "generic",
+                       "stream_name": draw(st.sampled_from(["", "", "name"])), "namespace_declarations": draw(st.booleans())}}
     case["output"] = draw(st.sampled_from(["bytesio", "raw"]))
     case["logical"] = 0 if how == "unspecified_logical" else flat
     if how == "explicit_flow":
